@@ -284,14 +284,24 @@ func (r *remoteReplicator) Replica(idx int64, msg []byte) {
 		logger.String("replicator", r.String()),
 		logger.Int64("replicaIdx", resp.ReplicaIndex),
 		logger.Int64("ackIdx", resp.AckIndex))
-	// FIXME: need check resp err
-	if resp.AckIndex == resp.ReplicaIndex {
+	if resp.Err == "" && resp.AckIndex == resp.ReplicaIndex {
 		// if ack index = replica, need ack wal
 		r.SetAckIndex(resp.AckIndex)
 		r.statistics.AckSequence.Incr()
 	} else {
-		// TODO: need reset ack sequence?
+		// follower did not append the message(append failure/partition closed, or it is waiting for another index),
+		// replica index is already moved forward, so channel must do the handshake again(resets the index of both sides),
+		// if not, follower refuses all following messages.
+		r.state.Store(&state{
+			state:  models.ReplicatorFailureState,
+			errMsg: "follower refuses replica index, root cause: " + resp.Err,
+		})
 		r.statistics.InvalidAckSequence.Incr()
+		r.logger.Warn("follower refuses replica message, need init replica channel again",
+			logger.String("replicator", r.String()),
+			logger.Int64("replicaIdx", resp.ReplicaIndex),
+			logger.Int64("ackIdx", resp.AckIndex),
+			logger.String("err", resp.Err))
 	}
 }
 
